@@ -56,7 +56,20 @@ NONCUBIC = [(16, 24, 40), (32, 12, 20), (8, 48, 20), (24, 24, 24),
 
 
 def key_of(lap, tri, cyc, nu):
-    return f"{'lap' if lap else 'frq'}-{'tri' if tri else 'iso'}-{cyc}-{nu}"
+    med = tri if isinstance(tri, str) else ('tri' if tri else 'iso')
+    return f"{'lap' if lap else 'frq'}-{med}-{cyc}-{nu}"
+
+
+# further media (added after round 7 of the seeded changes): anisotropy given
+# through an omitted keyword (VTI 1:1:2, HTI 1:2:1), and a triaxial medium
+# whose coefficients eta = s mu0 sigma V are tiny (100/200/300 Ohm m, a cube of
+# edge 16 m, 0.1 Hz or s = 0.1)
+EXTRA_MEDIA = ('vti', 'hti', 'tiny')
+
+
+def extra_configs():
+    return [(lap, med, cyc, 2) for med in EXTRA_MEDIA
+            for lap in (False, True) for cyc in 'FV']
 
 
 def reference(shape, tri, lap):
@@ -64,18 +77,31 @@ def reference(shape, tri, lap):
     cubic shapes), homogeneous medium 1 Ohm m or triaxial 1:2:3, 1 Hz or
     s = 1, finite dipole near the centre (not aligned with the grid)."""
     import emg3d
-    h = L/max(shape)
+    edge = 16.0 if tri == 'tiny' else L
+    h = edge/max(shape)
     hs = [np.ones(k)*h for k in shape]
     grid = emg3d.TensorMesh(hs, tuple(-k*h/2 for k in shape))
-    if tri:
+    if tri == 'vti':
+        model = emg3d.Model(grid, property_x=1.0, property_z=2.0,
+                            mapping='Resistivity')
+    elif tri == 'hti':
+        model = emg3d.Model(grid, property_x=1.0, property_y=2.0,
+                            mapping='Resistivity')
+    elif tri == 'tiny':
+        model = emg3d.Model(grid, property_x=100.0, property_y=200.0,
+                            property_z=300.0, mapping='Resistivity')
+    elif tri:
         model = emg3d.Model(grid, property_x=1.0, property_y=2.0,
                             property_z=3.0, mapping='Resistivity')
     else:
         model = emg3d.Model(grid, property_x=1.0, mapping='Resistivity')
-    src = emg3d.TxElectricDipole((-100., 100., -100., 100., 50., 100.))
+    sc = edge/L
+    src = emg3d.TxElectricDipole((-100.*sc, 100.*sc, -100.*sc, 100.*sc,
+                                  50.*sc, 100.*sc))
+    f0 = 0.1 if tri == 'tiny' else 1.0
     with warnings.catch_warnings():
         warnings.simplefilter('ignore')
-        sf = emg3d.get_source_field(grid, src, -1.0 if lap else 1.0)
+        sf = emg3d.get_source_field(grid, src, -f0 if lap else f0)
     return grid, model, sf
 
 
@@ -94,6 +120,11 @@ def measure(shape, tri, lap, cyc, nu, maxit=12):
     fac = e[1:]/e[:-1]
     ok = (e[1:] > 1e-11) & np.isfinite(fac) & (fac > 0)
     use = fac[ok][-5:]
+    if tri == 'tiny':
+        # nearly a pure curl-curl problem: the residual reaches its rounding
+        # floor (~1e-7 |s|) after eight cycles; the factor is taken over
+        # cycles 2-6
+        use = fac[ok][1:6]
     g = float(np.exp(np.mean(np.log(use)))) if use.size else float('nan')
     below = np.nonzero(e < 1e-6)[0]
     if below.size:
@@ -137,6 +168,12 @@ def suite_rates(ctx):
     # in every tier
     jobs += [(lap, tri, cyc, nu, shp) for (lap, tri, cyc, nu) in sel
              for shp in ((12, 16, 10), (16, 24, 40), (32, 32, 10))]
+    # the further media: 8^3 .. 32^3 and one non-cubic shape
+    ex = extra_configs()
+    if not ctx.thorough:
+        ex = [c for i, c in enumerate(ex) if (i + seed) % 2 == 0]
+    jobs += [(lap, med, cyc, nu, shp) for (lap, med, cyc, nu) in ex
+             for shp in ((8, 8, 8), (16, 16, 16), (32, 32, 32), (16, 24, 40))]
     # one 64^3 problem in every tier (many slices per prolongation call)
     if not ctx.thorough:
         jobs.append((*sel[seed % len(sel)], (64, 64, 64)))
